@@ -1,0 +1,100 @@
+//go:build verif
+
+// Verification hooks for C16 (compiled only with -tags verif). Add-only: thin
+// exported wrappers over the struct field resolution (TypeInfos.get), the field
+// name search and the omitempty emptiness tests. Nothing here is referenced by
+// the library itself.
+
+package codec
+
+import "reflect"
+
+// VerifSFI is one resolved struct field (structFieldInfo).
+type VerifSFI struct {
+	EncName   string
+	OmitEmpty bool
+	// Path holds (field index, numderef) for every parent and then the field itself.
+	Path [][2]int
+}
+
+// VerifStructInfo is what typeInfo keeps for a struct type.
+type VerifStructInfo struct {
+	ToArray   bool
+	OmitEmpty bool // infoFieldOmitempty
+	KeyType   int  // 0 string, 1 int, 2 uint, 3 float
+	Simple    bool
+	Source    []VerifSFI
+	Sorted    []VerifSFI
+}
+
+func verifSFI(si *structFieldInfo) (v VerifSFI) {
+	v.EncName = si.encName
+	v.OmitEmpty = si.omitEmpty
+	for i := range si.parents {
+		v.Path = append(v.Path, [2]int{int(si.parents[i].index), int(si.parents[i].numderef)})
+	}
+	v.Path = append(v.Path, [2]int{int(si.node.index), int(si.node.numderef)})
+	return
+}
+
+// VerifStructInfoOf returns the handle's resolved information for struct type rt.
+// A panic raised by halt is returned as an error.
+func VerifStructInfoOf(h Handle, rt reflect.Type) (info VerifStructInfo, err error) {
+	defer func() {
+		if r := recover(); r != nil {
+			if e, ok := r.(error); ok {
+				err = e
+			} else {
+				panic(r)
+			}
+		}
+	}()
+	ti := h.getBasicHandle().getTypeInfo(rt2id(rt), rt)
+	info.ToArray = ti.toArray
+	info.OmitEmpty = ti.infoFieldOmitempty
+	switch ti.keyType {
+	case valueTypeInt:
+		info.KeyType = 1
+	case valueTypeUint:
+		info.KeyType = 2
+	case valueTypeFloat:
+		info.KeyType = 3
+	}
+	info.Simple = ti.simple
+	for _, si := range ti.sfi.source() {
+		info.Source = append(info.Source, verifSFI(si))
+	}
+	for _, si := range ti.sfi.sorted() {
+		info.Sorted = append(info.Sorted, verifSFI(si))
+	}
+	return
+}
+
+// VerifStructSearch returns the index (in Source) of the field that
+// typeInfo.siForEncName finds for name, or -1.
+func VerifStructSearch(h Handle, rt reflect.Type, name []byte) int {
+	ti := h.getBasicHandle().getTypeInfo(rt2id(rt), rt)
+	si := ti.siForEncName(name)
+	if si == nil {
+		return -1
+	}
+	for i, s := range ti.sfi.source() {
+		if s == si {
+			return i
+		}
+	}
+	return -2
+}
+
+// VerifIsEmptyValue calls isEmptyValue (container=false) or isEmptyContainerValue
+// of the build variant in use.
+func VerifIsEmptyValue(h Handle, v reflect.Value, recursive, container bool) bool {
+	ti := h.getBasicHandle().TypeInfos
+	if container {
+		return isEmptyContainerValue(v, ti, recursive)
+	}
+	return isEmptyValue(v, ti, recursive)
+}
+
+// VerifSafeMode reports whether the build uses helper_not_unsafe.go.
+func VerifSafeMode() bool { return safeMode }
